@@ -128,8 +128,8 @@ Definition server_ring (w : world) (bell : nat) (claimed : option bool) : world 
   | Some s =>
       if match claimed with Some c => Bool.eqb s c | None => true end then
         let v := toggle (w_server w) (bell - 1) in
-        enqueue (w <| w_server := v |>) (qadd (w_now w) (match claimed with Some _ => w_delta w | None => 0%Q end))
-                (QMsg (MBellRung v bell))
+        (* the same latency for everybody's strikes: the connection delivers in order *)
+        enqueue (w <| w_server := v |>) (qadd (w_now w) (w_delta w)) (QMsg (MBellRung v bell))
       else w
   end.
 
